@@ -145,6 +145,28 @@ theorem C02_other_models_untouched (ops : List Op) (m m' : Nat) (hne : m' ≠ m)
     rw [ht, setRng_regs, hraw]
     cases w.regs[m']? <;> simp [hne]
 
+/-- **`create_agents` creates exactly n agents and splits only the sequences of length n.**  At any state, for
+    every class, every n and every list of arguments (positional and keyword alike): exactly n agents are
+    recorded, for this model and class, with the next n ids in order; the i-th receives, for each argument,
+    element i of a sequence whose length is n, and the argument itself otherwise — a single object, or a
+    sequence of *any other length*, which every agent then receives whole; the id counter moves by n. -/
+theorem C02_create_agents_splits_arguments (w : World) (m : Nat) (r : Reg) (hr : w.regs[m]? = some r)
+    (ty : Ty) (hold : Bool) (n : Nat) (args : List Arg) :
+    let w' := createAgents w m ty hold n args
+    w'.info.length = w.info.length + n ∧ (∀ a, a < w.info.length → w'.info[a]? = w.info[a]?) ∧
+    (∀ i, i < n → w'.info[w.info.length + i]? =
+      some { model := m, ty := ty, uid := r.nextId + i, x := args.map (Arg.at n i) }) ∧
+    (∃ r', w'.regs[m]? = some r' ∧ r'.nextId = r.nextId + n) ∧
+    (∀ i, i < n → (∀ v, Arg.at n i (.scalar v) = .int v) ∧
+      (∀ l v, l.length = n → l[i]? = some v → Arg.at n i (.seq l) = .int v) ∧
+      (∀ l, l.length ≠ n → Arg.at n i (.seq l) = .seq l)) := by
+  intro w'
+  obtain ⟨h1, h2, h3, h4⟩ := createN_spec m ty hold (splitArgs n args) w r hr
+  rw [splitArgs_length] at h1 h4
+  refine ⟨h1, h2, fun i hi => h3 i _ (splitArgs_getElem? n args i hi), h4, fun i _ => ⟨fun v => rfl, fun l v hl hv => ?_, fun l hl => ?_⟩⟩
+  · simp [Arg.at, hl, hv]
+  · simp [Arg.at, hl]
+
 /-- **Every set is duplicate-free after every history** (`model.agents`, each by-type set, each
     program-made set) — the hypothesis under which C04's "nobody is invoked twice" is stated. -/
 theorem C02_sets_nodup_all_histories (ops : List Op) (t : Target) : (rawMembers (run World.empty ops) t).Nodup := by
@@ -178,7 +200,7 @@ theorem C02_sets_nodup_all_histories (ops : List Op) (t : Target) : (rawMembers 
 
 private def demoOps : List Op :=
   [.newModel ⟨[3, 1, 4]⟩, .newModel ⟨[]⟩,
-   .create 0 0 false 0, .create 1 2 true 0, .createN 0 1 false [5, 6], .create 0 0 false 0,
+   .create 0 0 false [.int 0], .create 1 2 true [.int 0], .createAgents 0 1 false 2 [.seq [5, 6]], .create 0 0 false [],
    -- agent 0 removes agent 2 (twice) and creates an agent in the *other* model; agent 4 removes itself
    .doSet (fun a => if a = 0 then [.rm 2, .rm 2, .create 1 1 1 false] else if a = 4 then [.rmSelf] else []) 9 (.all 0),
    .remove 1, .remove 1]
@@ -189,5 +211,8 @@ example : (run World.empty demoOps).removedLog = [2, 2, 4, 1, 1] ∧
     (run World.empty demoOps).info.map (fun i => (i.model, i.uid)) = [(0, 1), (1, 1), (0, 2), (0, 3), (0, 4), (1, 2)] := by
   decide
 example : ∀ op ∈ demoOps, op.reordersRegistry = false := by decide
+/-- `create_agents(model, 3, [7, 8, 9], y=[1, 2])`: the first argument is split, the second (length 2) is not -/
+example : ((createAgents (newModel World.empty ⟨[]⟩) 0 1 false 3 [.seq [7, 8, 9], .seq [1, 2]]).info.map (·.x)) =
+    [[.int 7, .seq [1, 2]], [.int 8, .seq [1, 2]], [.int 9, .seq [1, 2]]] := by decide
 
 end Mesa.Agents
